@@ -1,0 +1,36 @@
+use async_graphql::{http::parse_query_string, *};
+
+struct Query;
+
+#[Object]
+impl Query {
+    async fn value(&self) -> i32 {
+        1
+    }
+}
+
+struct Mutation;
+
+#[Object]
+impl Mutation {
+    async fn set_value(&self) -> i32 {
+        panic!("a mutation must not run for a request parsed from a query string")
+    }
+}
+
+#[tokio::test]
+async fn test_query_string_request_rejects_mutation() {
+    let schema = Schema::new(Query, Mutation, EmptySubscription);
+    let query = "query=query+Q+%7Bvalue%7D+mutation+M+%7BsetValue%7D&operationName=";
+
+    let resp = schema
+        .execute(parse_query_string(&format!("{query}M")).unwrap())
+        .await;
+    assert_eq!(resp.errors.len(), 1);
+    assert_eq!(resp.data, Value::Null);
+
+    let resp = schema
+        .execute(parse_query_string(&format!("{query}Q")).unwrap())
+        .await;
+    assert_eq!(resp.into_result().unwrap().data, value!({ "value": 1 }));
+}
